@@ -93,6 +93,21 @@ where
         Poll::Pending
     }
 
+    /// Returns the connection error if the connection has already failed
+    ///
+    /// Does what [`Self::poll_connection_error`] does, for callers which are not polled
+    /// and so have no waker to register.
+    pub fn check_connection_error(&mut self) -> Result<(), ConnectionError> {
+        if let Some(ref error) = self.handled_connection_error {
+            return Err(error.clone());
+        };
+        if let Some(err) = self.get_conn_error() {
+            let err = self.close_if_needed(err);
+            return Err(self.convert_to_connection_error(err));
+        }
+        Ok(())
+    }
+
     /// Close the connection
     pub fn close_connection(&mut self, code: Code, reason: String) {
         self.conn.close(code, reason.as_bytes())
